@@ -564,13 +564,19 @@ fn do_check(engine: &Engine, prop: &Prop, args: &Args) -> i32 {
         prop.id, engine.name, args.tier, args.seed, runs, args.threads
     );
     // determinism self-test first (DESIGN §3.6)
+    let mut nondeterministic: Option<String> = None;
+    let mut unreproducible = 0u64;
     let st_n = if args.no_selftest { 0 } else if args.tier == "thorough" { 20_000.min(runs) } else { 2_000.min(runs) };
     if st_n > 0 {
         match selftest(engine, prop, args, st_n) {
             Ok(_) => println!("selftest: {st_n} runs x (1,16 threads in-process; 4 threads fresh process): identical event-log hashes"),
             Err(e) => {
-                eprintln!("HARNESS: determinism self-test failed: {e}");
-                return 2;
+                // Do not stop here: if the code under test itself behaves nondeterministically
+                // (e.g. a result that depends on hash-map iteration order) the batch below may
+                // still find a violation that reproduces from its replay file — that is reported
+                // as a violation. Only when nothing reproducible is found is this a harness error.
+                eprintln!("HARNESS-WARNING: determinism self-test failed: {e}; continuing, the run is only accepted if a violation reproduces from its replay file");
+                nondeterministic = Some(e);
             }
         }
     }
@@ -618,8 +624,9 @@ fn do_check(engine: &Engine, prop: &Prop, args: &Args) -> i32 {
         let o = run_one(sc, &mut sim);
         let same = o.violation.as_ref().map(|x| &x.class) == Some(class);
         if !same {
-            eprintln!("HARNESS: violation {class} of run {r} did not reproduce in-process from its seed");
-            return 2;
+            eprintln!("HARNESS-WARNING: violation {class} of run {r} did not reproduce in-process from its seed");
+            unreproducible += 1;
+            continue;
         }
         let orig = sim.values();
         let min = minimise(
@@ -638,14 +645,24 @@ fn do_check(engine: &Engine, prop: &Prop, args: &Args) -> i32 {
         let path = write_replay(engine.name, prop.id, sc.name, args.seed, *r, &s.trace, &vv, &s.log, orig.len());
         // fresh-process confirmation
         let exe = std::env::current_exe().unwrap();
-        let out = std::process::Command::new(exe).args([prop.id, "--replay", path.to_str().unwrap()]).output();
-        let confirmed = match &out {
-            Ok(o) => String::from_utf8_lossy(&o.stdout).contains(&format!("REPLAY-VIOLATION class={class}")),
-            Err(_) => false,
-        };
+        // (when the self-test already showed nondeterminism in the code under test, a few attempts
+        // are allowed: a violation that reproduces from its replay file in a fresh process is real)
+        let attempts = if nondeterministic.is_some() { 8 } else { 1 };
+        let mut confirmed = false;
+        for _ in 0..attempts {
+            let out = std::process::Command::new(&exe).args([prop.id, "--replay", path.to_str().unwrap()]).output();
+            confirmed = match &out {
+                Ok(o) => String::from_utf8_lossy(&o.stdout).contains(&format!("REPLAY-VIOLATION class={class}")),
+                Err(_) => false,
+            };
+            if confirmed {
+                break;
+            }
+        }
         if !confirmed {
-            eprintln!("HARNESS: violation {class} did not reproduce from {} in a fresh process", path.display());
-            return 2;
+            eprintln!("HARNESS-WARNING: violation {class} did not reproduce from {} in a fresh process", path.display());
+            unreproducible += 1;
+            continue;
         }
         if let Some(f) = known_for(&findings, prop.id, class) {
             if known_printed.insert(class.clone()) {
@@ -755,6 +772,16 @@ fn do_check(engine: &Engine, prop: &Prop, args: &Args) -> i32 {
         "done property={} runs={} nontrivial_distinct={} sim_time={} {} faults={:?} probes={:?} wall={:.1}s violations={}",
         prop.id, agg.evaluations, agg.distinct.len(), agg.sim_time, prop.time_unit, agg.faults, agg.probes, wall, reported
     );
+    if exit == 0 {
+        if let Some(e) = &nondeterministic {
+            eprintln!("HARNESS: determinism self-test failed and no reproducible violation was found: {e}");
+            return 2;
+        }
+        if unreproducible > 0 {
+            eprintln!("HARNESS: {unreproducible} violation(s) did not reproduce from their seed / replay file and nothing else was found");
+            return 2;
+        }
+    }
     if exit == 0 && !missing.is_empty() {
         eprintln!("HARNESS: reach probes stuck at zero: {missing:?} — workload no longer reaches what it claims");
         return 2;
